@@ -104,10 +104,10 @@ def observe_local(case):
     try:
         cms = to_tensor(case["maps"], S, C, H, W, scale, f64, case.get("half", ""))
         rec["rough"] = local_rows(pf.find_local_peaks_rough(cms.clone(), threshold=thr), scale, f64)
-        rec["none"] = local_rows(pf.find_local_peaks(cms.clone(), threshold=thr, refinement=None), scale, f64)
+        rec["none"] = local_rows(pf.find_local_peaks(cms.clone(), threshold=thr), scale, f64)       # refinement left at its default (None)
         for P in ps:
-            rec["ref"].append(dict(p=P, rows=local_rows(
-                pf.find_local_peaks(cms.clone(), threshold=thr, refinement="integral", integral_patch_size=P), scale)))
+            kw = {} if P == 5 else {"integral_patch_size": P}                                     # 5 is the documented default: left out
+            rec["ref"].append(dict(p=P, rows=local_rows(pf.find_local_peaks(cms.clone(), threshold=thr, refinement="integral", **kw), scale)))
     except Exception as e:  # totality is part of the property
         rec["raised"] = "%s: %s" % (type(e).__name__, str(e)[:200])
     return rec
@@ -125,10 +125,10 @@ def observe_global(case):
     try:
         cms = to_tensor(case["maps"], S, C, H, W, scale, f64, case.get("half", ""))
         rec["rough"] = global_rows(pf.find_global_peaks_rough(cms.clone(), threshold=thr), scale, f64)
-        rec["none"] = global_rows(pf.find_global_peaks(cms.clone(), threshold=thr, refinement=None), scale, f64)
+        rec["none"] = global_rows(pf.find_global_peaks(cms.clone(), threshold=thr), scale, f64)     # refinement left at its default (None)
         for P in ps:
-            rec["ref"].append(dict(p=P, rows=global_rows(
-                pf.find_global_peaks(cms.clone(), threshold=thr, refinement="integral", integral_patch_size=P), scale)))
+            kw = {} if P == 5 else {"integral_patch_size": P}                                     # 5 is the documented default: left out
+            rec["ref"].append(dict(p=P, rows=global_rows(pf.find_global_peaks(cms.clone(), threshold=thr, refinement="integral", **kw), scale)))
     except Exception as e:
         rec["raised"] = "%s: %s" % (type(e).__name__, str(e)[:200])
     return rec
